@@ -483,5 +483,5 @@ func boundText(c *BoundedCheck) string {
 	if c.Kind == "gotest" {
 		return "exhaustive enumeration coded in " + c.Target + " (" + c.TestName + ")"
 	}
-	return fmt.Sprintf("all strings up to length %d over an 11-letter alphabet", c.MaxLen)
+	return fmt.Sprintf("all strings up to length %d over a 12-letter alphabet", c.MaxLen)
 }
